@@ -176,6 +176,37 @@ namespace hv
             }
         };
 
+        // selection by switch_: branch graphs that hand one of two inputs through, directly or behind a reference-shaped
+        // terminal (if_then_else over a constant)
+        template <typename S> struct BrDirectA { static constexpr auto name = "ho_br_direct_a"; static Port<S> compose(Wiring &, Port<S> a, Port<S>) { return a; } };
+        template <typename S> struct BrDirectB { static constexpr auto name = "ho_br_direct_b"; static Port<S> compose(Wiring &, Port<S>, Port<S> b) { return b; } };
+        template <typename S>
+        struct BrRefA
+        {
+            static constexpr auto name = "ho_br_ref_a";
+            static Port<S> compose(Wiring &w, Port<S> a, Port<S> b) { return wire<stdlib::if_then_else>(w, wire<stdlib::const_, TS<Bool>>(w, Bool{true}), a, b).template as<S>(); }
+        };
+        template <typename S>
+        struct BrRefB
+        {
+            static constexpr auto name = "ho_br_ref_b";
+            static Port<S> compose(Wiring &w, Port<S> a, Port<S> b) { return wire<stdlib::if_then_else>(w, wire<stdlib::const_, TS<Bool>>(w, Bool{false}), a, b).template as<S>(); }
+        };
+
+        // the library's pass_through_node with a log line: what a branch that copies its input sees when it is activated
+        struct CopyLog
+        {
+            static constexpr auto name = "ho_copy_log";
+            static void eval(In<"ts", TsVar<"S">> ts, DateTime now, Out<TsVar<"S">> out)
+            {
+                Line("BR").i("t", off(now)).raw("i", cv::describe(ts.base())).emit();
+                const Value delta = capture_delta(ts.base());
+                apply_delta(out, delta.view());
+            }
+        };
+        template <typename S> struct BrCopyA { static constexpr auto name = "ho_br_copy_a"; static Port<S> compose(Wiring &w, Port<S> a, Port<S>) { return wire<CopyLog>(w, a).template as<S>(); } };
+        template <typename S> struct BrCopyB { static constexpr auto name = "ho_br_copy_b"; static Port<S> compose(Wiring &w, Port<S>, Port<S> b) { return wire<CopyLog>(w, b).template as<S>(); } };
+
         // per-key error recorder for exception_time_series(map)
         struct ErrCons
         {
@@ -339,6 +370,26 @@ namespace hv
                                 Port<S> b{w, src(st, "b")};
                                 if (k == "ite") ps.ref[id] = wire<stdlib::if_then_else>(w, c, a, b).template as<S>().erased();
                                 else ps.ref[id] = nested_<IteG<S>>(w, c, a, b).template as<S>().erased();
+                            }
+                        });
+                        ps.shape[id] = sh;
+                    }
+                    else if (k == "swsel")
+                    {   // swsel <id> c=<bool id> a=<id> b=<id> br=direct|ref: switch_ keyed on the selector, true -> a, false -> b
+                        long long id        = std::stoll(st.tok.at(1));
+                        const std::string sh = ps.shape.at(st.geti("a"));
+                        const bool by_ref   = st.get("br", "direct") == "ref";
+                        Port<TS<Bool>> c{w, src(st, "c")};
+                        with_ho_shape(sh, w, src(st, "a"), [&](auto a) {
+                            using S = typename decltype(a)::schema;
+                            if constexpr (!std::is_same_v<S, TS<Bool>>)
+                            {
+                                Port<S> b{w, src(st, "b")};
+                                auto cases = by_ref ? stdlib::switch_cases({{Value{Bool{true}}, fn<BrRefA<S>>()}, {Value{Bool{false}}, fn<BrRefB<S>>()}})
+                                             : st.get("br", "direct") == "copy"
+                                                 ? stdlib::switch_cases({{Value{Bool{true}}, fn<BrCopyA<S>>()}, {Value{Bool{false}}, fn<BrCopyB<S>>()}})
+                                                 : stdlib::switch_cases({{Value{Bool{true}}, fn<BrDirectA<S>>()}, {Value{Bool{false}}, fn<BrDirectB<S>>()}});
+                                ps.ref[id] = wire<stdlib::switch_>(w, c, std::move(cases), a, b).template as<S>().erased();
                             }
                         });
                         ps.shape[id] = sh;
